@@ -8,8 +8,13 @@
   * `clean lc ts`    : every token is good, the first one is not glued, and every glued one may
                        directly follow its predecessor (`glueOk`); compositional (`clean_append`).
   * `clean_renderTop`: the canonical spelling of a well-formed tree with good names is clean, hence
-  * `lex_renderTop`  : the lexer reads its characters back as exactly `renderTop e`, and with
-                       `parse_render`:
+  * `lexRaw_renderTop`: the tokeniser reads its characters back as exactly `renderTop e`;
+  * `placed_renderTop`: in the canonical spelling every operator-name keyword is an operator and
+                       stands directly after the last token of an operand (`Seg`: the spelling of an
+                       expression takes the flag "an operand is expected" from true to false), so the
+                       operator-name rule of `lex` (`retagOps`) changes nothing, hence
+  * `lex_renderTop`  : the lexer — with or without the rule — reads the characters back as exactly
+                       `renderTop e`, and with `parse_render`:
   * `parseModel_spelling`, `parseSpec_spelling` : lexing and parsing the characters of the canonical
                        spelling gives the tree back.
 -/
@@ -420,15 +425,241 @@ theorem glueToks_flagItems : ∀ (ts : Toks), clean lc ts = true → glueToks (f
     subst hg
     simp [flagItems, glueToks, List.map_map, Function.comp_def]
 
-/-- the lexer reads the characters of a clean token list back as that list, flags included -/
-theorem lex_spellToks (lc : LexCfg) (ts : Toks) (h : clean lc ts = true) :
-    lex lc (spellToks ts) = .ok ts := by
-  rw [spellToks_eq, lex_spellGlue lc _ (glueAllOk_of_tight lc ts none h), glueToks_flagItems ts h]
+/-- the tokeniser reads the characters of a clean token list back as that list, flags included -/
+theorem lexRaw_spellToks (lc : LexCfg) (ts : Toks) (h : clean lc ts = true) :
+    lexRaw lc (spellToks ts) = .ok ts := by
+  rw [spellToks_eq, lexRaw_spellGlue lc _ (glueAllOk_of_tight lc ts none h), glueToks_flagItems ts h]
 
-/-- **the lexer inverts the canonical spelling** -/
+/-- the lexer reads them back with the operator names retagged (when `lc.opRule`) … -/
+theorem lex_spellToks (lc : LexCfg) (ts : Toks) (h : clean lc ts = true) :
+    lex lc (spellToks ts) = .ok (lc.retag ts) :=
+  lex_of_lexRaw (lexRaw_spellToks lc ts h)
+
+/-- … hence as that list, if no operator name stands where an operand is expected -/
+theorem lex_spellToks_placed (lc : LexCfg) (ts : Toks) (h : clean lc ts = true)
+    (hp : lc.opRule = true → opsPlaced true ts = true) : lex lc (spellToks ts) = .ok ts := by
+  rw [lex_spellToks lc ts h, retag_of_placed hp]
+
+/-- the tokeniser inverts the canonical spelling -/
+theorem lexRaw_renderTop (lc : LexCfg) (e : Expr) (h : wfE e = true) (hn : namesOk lc e = true) :
+    lexRaw lc (spellToks (renderTop e)) = .ok (renderTop e) :=
+  lexRaw_spellToks lc _ (clean_renderTop lc e h hn)
+
+/-! ### the operator names of the canonical spelling are operators
+
+  `Seg a b ts`: read with the flag "an operand is expected" = `a` before its first token, `ts` has no
+  operator-name keyword where an operand is expected, and the flag is `b` after its last token.  The
+  spelling of an expression is a `Seg true false` (it starts where an operand is expected and ends
+  with a token that ends an operand: a name, a name-test `*`, `)`, `]`, a literal, digits, a variable
+  reference, `.`), a binary operator a `Seg false true` — also the multiplication `*`, which the rule
+  tells from the name test by the same flag. -/
+
+def Seg (a b : Bool) (ts : Toks) : Prop := opsPlaced a ts = true ∧ expAfter a ts = b
+
+theorem Seg.nil (a : Bool) : Seg a a [] := ⟨rfl, rfl⟩
+
+theorem Seg.append {a b c : Bool} {x y : Toks} (hx : Seg a b x) (hy : Seg b c y) : Seg a c (x ++ y) := by
+  obtain ⟨h1, h2⟩ := hx
+  obtain ⟨h3, h4⟩ := hy
+  subst h2 h4
+  exact ⟨by rw [opsPlaced_append, h1, h3]; rfl, by rw [expAfter_append]⟩
+
+theorem Seg.cons {a c : Bool} (t : LTok) {r : Toks} (h1 : (t.tok.isOpKw && a) = false)
+    (h2 : Seg (expNext a t.tok) c r) : Seg a c (t :: r) := by
+  obtain ⟨h3, h4⟩ := h2
+  exact ⟨by simp only [opsPlaced, h1, h3]; rfl, by simpa only [expAfter] using h4⟩
+
+theorem Seg.one {a : Bool} (t : LTok) (h1 : (t.tok.isOpKw && a) = false) : Seg a (expNext a t.tok) [t] :=
+  Seg.cons t h1 (Seg.nil _)
+
+theorem seg_wrap {lv min : Nat} {ts : Toks} (h : Seg true false ts) : Seg true false (wrap lv min ts) := by
+  unfold wrap
+  split
+  · exact Seg.cons _ rfl (Seg.append h (Seg.one (a := false) (U (.p .rparen)) rfl))
+  · exact h
+
+/-- a binary operator stands after an operand and expects one -/
+theorem seg_opTok (op : BinOp) : Seg false true [U (opTok op)] := by
+  cases op with
+  | cmp o => cases o <;> exact ⟨rfl, rfl⟩
+  | _ => exact ⟨rfl, rfl⟩
+
+theorem seg_testToks (t : NodeTest) : Seg true false (testToks t) := by
+  cases t <;> exact ⟨rfl, rfl⟩
+
+theorem seg_fnToks (p : Option Chars) (n : Chars) : Seg true false (fnToks p n) := by
+  cases p <;> exact ⟨rfl, rfl⟩
+
+theorem seg_numToks (n : Num) : Seg true false (numToks n) := by
+  unfold numToks
+  simp only
+  split <;> exact ⟨rfl, rfl⟩
+
+theorem seg_basePrefix {b : Expr} (h : Seg true false (raw b)) : Seg true true (basePrefix b) := by
+  by_cases h1 : b = .ctx
+  · subst h1; simpa [basePrefix] using Seg.nil true
+  by_cases h2 : b = .root
+  · subst h2; simp only [basePrefix]; exact ⟨rfl, rfl⟩
+  · rw [basePrefix_of_ne h1 h2]
+    exact Seg.append (seg_wrap h) (Seg.one (a := false) (U (.p .slash)) rfl)
+
+mutual
+/-- the spelling of an expression starts where an operand is expected and ends an operand; every
+    operator name in it stands after an operand -/
+theorem seg_raw : (e : Expr) → Seg true false (raw e)
+  | .bin op l r => by
+    simp only [raw]
+    exact Seg.append (seg_wrap (seg_raw l)) (Seg.append (x := [U (opTok op)]) (seg_opTok op) (seg_wrap (seg_raw r)))
+  | .neg e => by
+    simp only [raw]
+    exact Seg.cons _ rfl (seg_wrap (seg_raw e))
+  | .num n => by
+    simp only [raw]
+    exact seg_numToks n
+  | .lit s => by
+    simp only [raw]
+    exact ⟨rfl, rfl⟩
+  | .var p n => by
+    simp only [raw]
+    cases p <;> exact ⟨rfl, rfl⟩
+  | .call b p n as => by
+    simp only [raw]
+    exact Seg.append (Seg.append (seg_basePrefix (seg_raw b)) (seg_fnToks p n))
+      (Seg.cons (a := false) _ rfl (seg_args as))
+  | .root => by
+    simp only [raw]
+    exact ⟨rfl, rfl⟩
+  | .ctx => by
+    simp only [raw]
+    exact ⟨rfl, rfl⟩
+  | .step b ax t ps => by
+    simp only [raw]
+    exact Seg.append (seg_basePrefix (seg_raw b))
+      (Seg.cons (a := true) _ rfl (Seg.cons (a := false) _ rfl (Seg.append (seg_testToks t) (seg_preds ps))))
+  | .filt b p => by
+    simp only [raw]
+    exact Seg.append (seg_wrap (seg_raw b))
+      (Seg.cons (a := false) _ rfl (Seg.append (seg_wrap (seg_raw p)) (Seg.one (a := false) (U (.p .rbrack)) rfl)))
+theorem seg_preds : (ps : Exprs) → Seg false false (renderPreds ps)
+  | .nil => by simp only [renderPreds]; exact Seg.nil false
+  | .cons p ps => by
+    simp only [renderPreds]
+    exact Seg.cons (a := false) _ rfl (Seg.append (seg_wrap (seg_raw p)) (Seg.cons (a := false) _ rfl (seg_preds ps)))
+theorem seg_args : (as : Exprs) → Seg true false (renderArgs as)
+  | .nil => by simp only [renderArgs]; exact ⟨rfl, rfl⟩
+  | .cons a as => by
+    have ha := seg_wrap (lv := level a) (min := 0) (seg_raw a)
+    cases as with
+    | nil =>
+      simp only [renderArgs]
+      exact Seg.append ha (Seg.one (a := false) (U (.p .rparen)) rfl)
+    | cons b bs =>
+      have := seg_args (.cons b bs)
+      simp only [renderArgs] at this ⊢
+      exact Seg.append ha (Seg.cons (a := false) _ rfl this)
+end
+
+/-- **in the canonical spelling the operator-name rule changes nothing**: every `or and div mod`
+    keyword of `renderTop e` is an operator and follows an operand (no hypothesis on `e`: names are
+    `ncname` tokens in `renderTop e`, whatever they spell) -/
+theorem placed_renderTop (e : Expr) : opsPlaced true (renderTop e) = true := by
+  by_cases hr : e = .root
+  · subst hr; rfl
+  · have hrt : renderTop e = render e 0 := by
+      cases e <;> first | rfl | exact absurd rfl hr
+    rw [hrt]
+    exact (seg_wrap (seg_raw e)).1
+
+theorem retagOps_renderTop (e : Expr) : retagOps true (renderTop e) = renderTop e :=
+  retagOps_id true _ (placed_renderTop e)
+
+theorem retag_renderTop (lc : LexCfg) (e : Expr) : lc.retag (renderTop e) = renderTop e :=
+  retag_of_placed (fun _ => placed_renderTop e)
+
+/-- **the lexer inverts the canonical spelling** (with the operator-name rule, `lc.opRule = true`, as
+    well as without) -/
 theorem lex_renderTop (lc : LexCfg) (e : Expr) (h : wfE e = true) (hn : namesOk lc e = true) :
     lex lc (spellToks (renderTop e)) = .ok (renderTop e) :=
-  lex_spellToks lc _ (clean_renderTop lc e h hn)
+  lex_spellToks_placed lc _ (clean_renderTop lc e h hn) (fun _ => placed_renderTop e)
+
+/-! ### names of a lexer with fewer name start characters are names of one with more -/
+
+theorem isName_mono {lc lc' : LexCfg} (hu : lc.uscore = true → lc'.uscore = true) {s : Chars} (h : isName lc s = true) : isName lc' s = true := by
+  cases s with
+  | nil => simp [isName] at h
+  | cons c s =>
+    simp only [isName, isNameStart, Bool.and_eq_true, Bool.or_eq_true] at h ⊢
+    refine ⟨?_, h.2⟩
+    rcases h.1 with h1 | h1
+    · exact Or.inl h1
+    · exact Or.inr ⟨hu h1.1, h1.2⟩
+
+theorem nameOk_mono {lc lc' : LexCfg} (hu : lc.uscore = true → lc'.uscore = true) {s : Chars} (h : nameOk lc s = true) : nameOk lc' s = true := by
+  simp only [nameOk, Bool.and_eq_true] at h ⊢
+  exact ⟨isName_mono hu h.1, h.2⟩
+
+theorem testOk_mono {lc lc' : LexCfg} (hu : lc.uscore = true → lc'.uscore = true) {t : NodeTest} (h : testOk lc t = true) : testOk lc' t = true := by
+  cases t with
+  | qname p l =>
+    simp only [testOk, Bool.and_eq_true] at h ⊢
+    exact ⟨nameOk_mono hu h.1, nameOk_mono hu h.2⟩
+  | nsAny p => exact nameOk_mono hu h
+  | localAny l => exact nameOk_mono hu h
+  | name l => exact nameOk_mono hu h
+  | _ => exact h
+
+theorem fnOk_mono {lc lc' : LexCfg} (hu : lc.uscore = true → lc'.uscore = true) {p : Option Chars} {n : Chars} (h : fnOk lc p n = true) : fnOk lc' p n = true := by
+  cases p with
+  | none =>
+    simp only [fnOk, Bool.true_and] at h ⊢
+    exact nameOk_mono hu h
+  | some p =>
+    simp only [fnOk, Bool.and_eq_true] at h ⊢
+    exact ⟨nameOk_mono hu h.1, nameOk_mono hu h.2⟩
+
+theorem varOk_mono {lc lc' : LexCfg} (hu : lc.uscore = true → lc'.uscore = true) {p : Option Chars} {n : Chars} (h : varOk lc p n = true) : varOk lc' p n = true := by
+  cases p with
+  | none =>
+    simp only [varOk, Bool.true_and] at h ⊢
+    exact isName_mono hu h
+  | some p =>
+    simp only [varOk, Bool.and_eq_true] at h ⊢
+    exact ⟨isName_mono hu h.1, isName_mono hu h.2⟩
+
+mutual
+theorem namesOk_mono {lc lc' : LexCfg} (hu : lc.uscore = true → lc'.uscore = true) : (e : Expr) → namesOk lc e = true → namesOk lc' e = true
+  | .bin _ l r, h => by
+    simp only [namesOk, Bool.and_eq_true] at h ⊢
+    exact ⟨namesOk_mono hu l h.1, namesOk_mono hu r h.2⟩
+  | .neg e, h => by
+    simp only [namesOk] at h ⊢
+    exact namesOk_mono hu e h
+  | .num _, _ => by simp only [namesOk]
+  | .lit _, h => by simpa only [namesOk] using h
+  | .var p n, h => by
+    simp only [namesOk] at h ⊢
+    exact varOk_mono hu h
+  | .call b p n as, h => by
+    simp only [namesOk, Bool.and_eq_true] at h ⊢
+    exact ⟨⟨namesOk_mono hu b h.1.1, fnOk_mono hu h.1.2⟩, namesOks_mono hu as h.2⟩
+  | .root, _ => by simp only [namesOk]
+  | .ctx, _ => by simp only [namesOk]
+  | .step b _ t ps, h => by
+    simp only [namesOk, Bool.and_eq_true] at h ⊢
+    exact ⟨⟨namesOk_mono hu b h.1.1, testOk_mono hu h.1.2⟩, namesOks_mono hu ps h.2⟩
+  | .filt b p, h => by
+    simp only [namesOk, Bool.and_eq_true] at h ⊢
+    exact ⟨namesOk_mono hu b h.1, namesOk_mono hu p h.2⟩
+theorem namesOks_mono {lc lc' : LexCfg} (hu : lc.uscore = true → lc'.uscore = true) : (es : Exprs) → namesOks lc es = true → namesOks lc' es = true
+  | .nil, _ => by simp only [namesOks]
+  | .cons e es, h => by
+    simp only [namesOks, Bool.and_eq_true] at h ⊢
+    exact ⟨namesOk_mono hu e h.1, namesOks_mono hu es h.2⟩
+end
+
+/-- every name of xsel's lexer is a name of XPath's (which also lets names start with `_`) -/
+theorem namesOk_model_spec (e : Expr) (h : namesOk lexModel e = true) : namesOk lexSpec e = true :=
+  namesOk_mono (lc := lexModel) (lc' := lexSpec) (fun _ => rfl) e h
 
 /-! ### end to end, on strings -/
 
@@ -445,5 +676,28 @@ theorem parseSpec_spelling (e : Expr) (h : wfE e = true) (hn : namesOk lexSpec e
   unfold parseSpec
   rw [lex_renderTop lexSpec e h hn]
   simp only [parse_render_spec e h]
+
+/-! ### evaluating `parseModel` / `parseSpec` on a concrete string in two steps (tokens, then tree) -/
+
+theorem parseModel_of {cs : Chars} (ts : Toks) {e : Expr} (hl : lex lexModel cs = .ok ts)
+    (hp : parseToks cfgModel ts = some e) : parseModel cs = .ok e := by
+  simp only [parseModel, hl, hp]
+
+theorem parseSpec_of {cs : Chars} (ts : Toks) {e : Expr} (hl : lex lexSpec cs = .ok ts)
+    (hp : parseToks cfgSpec ts = some e) : parseSpec cs = .ok e := by
+  simp only [parseSpec, hl, hp]
+
+theorem parseModel_err_of {cs : Chars} (ts : Toks) (hl : lex lexModel cs = .ok ts)
+    (hp : (parseToks cfgModel ts).isSome = false) (hp' : (parseToks cfgModelLoose ts).isSome = false)
+    (hs : hasSlashStar ts = false) : parseModel cs = .err := by
+  simp only [Option.isSome_eq_false_iff, Option.isNone_iff_eq_none] at hp
+  simp [parseModel, hl, hp, hp', hs]
+
+/-- the two formulations of the operator-name rule — xsel's, on the token list after the lexer
+    (`retagOps`), and the specification's, in the parser by grammar position (`Cfg.opNames`) — read
+    every canonical spelling alike -/
+theorem parseModel_eq_parseSpec_spelling (e : Expr) (h : wfE e = true) (hn : namesOk lexModel e = true) :
+    parseModel (spellToks (renderTop e)) = parseSpec (spellToks (renderTop e)) := by
+  rw [parseModel_spelling e h hn, parseSpec_spelling e h (namesOk_model_spec e hn)]
 
 end Xsel.Syntax
